@@ -383,6 +383,17 @@ func drawLog(t *rapid.T, name string, idx uint64, hp *HashPool, maxRec int, exac
 // sends the reader into its read-more path. blockSize counts what the record may use
 // together with the 4-byte block header and its 5-byte restart table.
 func DrawFillingLog(t *rapid.T, name string, idx uint64, hs int, blockSize int, exact bool, slack int) (Log, bool) {
+	return drawFillingLog(t, name, idx, hs, blockSize, exact, slack, false)
+}
+
+// DrawBigFillingLog is DrawFillingLog for blocks of tens or hundreds of kilobytes: the noise is
+// expanded from one drawn 64-bit value (xorshift) instead of being drawn byte by byte; the
+// case still carries the full message, so it replays exactly.
+func DrawBigFillingLog(t *rapid.T, name string, idx uint64, hs int, blockSize int, exact bool, slack int) (Log, bool) {
+	return drawFillingLog(t, name, idx, hs, blockSize, exact, slack, true)
+}
+
+func drawFillingLog(t *rapid.T, name string, idx uint64, hs int, blockSize int, exact bool, slack int, expand bool) (Log, bool) {
 	l := Log{Name: Str(name), Idx: idx}
 	l.Old = rapid.SliceOfN(rapid.Byte(), hs, hs).Draw(t, "fold")
 	l.New = rapid.SliceOfN(rapid.Byte(), hs, hs).Draw(t, "fnew")
@@ -404,7 +415,19 @@ func DrawFillingLog(t *rapid.T, name string, idx uint64, hs int, blockSize int, 
 	if m < 2 {
 		return l, false
 	}
-	b := rapid.SliceOfN(rapid.Byte(), m, m).Draw(t, "fnoise")
+	var b []byte
+	if expand {
+		x := rapid.Uint64().Draw(t, "fnoiseSeed") | 1
+		b = make([]byte, m)
+		for i := range b {
+			x ^= x << 13
+			x ^= x >> 7
+			x ^= x << 17
+			b[i] = byte(x >> 32)
+		}
+	} else {
+		b = rapid.SliceOfN(rapid.Byte(), m, m).Draw(t, "fnoise")
+	}
 	if !exact {
 		// the writer would normalise the message: keep it in normal form (one final newline)
 		for i := range b {
